@@ -366,22 +366,22 @@ Qed.
 
 (* set_outermost only raises outermost flags, exactly on the meshes of the boundaries of that domain *)
 Definition raise_out (ms : list nat) (fl : list flags) : list flags :=
-  fold_left (fun fl m => let f := nth m fl flags0 in upd fl m (mkFlags (f_cb f) (f_iso f) true)) ms fl.
+  fold_left (fun fl m => let f := nth m fl flags0 in upd fl m (mkFlags (f_cb f) (f_iso f) (f_out f || negb (f_iso f)))) ms fl.
 
 Lemma raise_out_spec : forall ms fl m,
   length (raise_out ms fl) = length fl /\
   f_cb (nth m (raise_out ms fl) flags0) = f_cb (nth m fl flags0) /\
   f_iso (nth m (raise_out ms fl) flags0) = f_iso (nth m fl flags0) /\
-  f_out (nth m (raise_out ms fl) flags0) = (f_out (nth m fl flags0) || (memn m ms && Nat.ltb m (length fl))).
+  f_out (nth m (raise_out ms fl) flags0) = (f_out (nth m fl flags0) || (memn m ms && Nat.ltb m (length fl) && negb (f_iso (nth m fl flags0)))).
 Proof.
   induction ms as [|x ms IH]; intros fl m.
   - unfold raise_out; simpl. rewrite orb_false_r. auto.
-  - change (raise_out (x :: ms) fl) with (raise_out ms (upd fl x (mkFlags (f_cb (nth x fl flags0)) (f_iso (nth x fl flags0)) true))).
-    destruct (IH (upd fl x (mkFlags (f_cb (nth x fl flags0)) (f_iso (nth x fl flags0)) true)) m) as (A & B & C & D).
+  - change (raise_out (x :: ms) fl) with (raise_out ms (upd fl x (mkFlags (f_cb (nth x fl flags0)) (f_iso (nth x fl flags0)) (f_out (nth x fl flags0) || negb (f_iso (nth x fl flags0)))))).
+    destruct (IH (upd fl x (mkFlags (f_cb (nth x fl flags0)) (f_iso (nth x fl flags0)) (f_out (nth x fl flags0) || negb (f_iso (nth x fl flags0))))) m) as (A & B & C & D).
     rewrite upd_length in *. rewrite A, B, C, D. rewrite !nth_upd. simpl memn.
     destruct (Nat.eqb_spec x m) as [->|Hn]; simpl.
     + rewrite Nat.eqb_refl. destruct (Nat.ltb m (length fl)); simpl; repeat split; auto.
-      * rewrite orb_true_r. auto.
+      * destruct (f_out (nth m fl flags0)), (f_iso (nth m fl flags0)), (memn m ms); reflexivity.
       * rewrite !andb_false_r. auto.
     + replace (Nat.eqb m x) with false by (symmetry; apply Nat.eqb_neq; auto). simpl. repeat split; auto.
 Qed.
